@@ -60,11 +60,13 @@ class BridgeReplay:
         inv = {v: k for k, v in PORTMAP.items()}
         bridge = SwitcherBridge(self.on_device, ports)
         task = None
+        on_running = False
         self.cur_port = 0
         nsent = 0
         for n, st in enumerate(self.beh):
             a, p = st["a"], PORTMAP.get(st["p"], 0)
             if a == "StartBegin":
+                on_running = bool(bridge.is_running)      # start() on a running bridge: whether it raises is left open
                 task = asyncio.ensure_future(bridge.start())
             elif a in ("StartPort", "StartDone"):
                 await asyncio.sleep(0)
@@ -100,7 +102,7 @@ class BridgeReplay:
             if task is not None and task.done():
                 raised = task.exception() is not None
                 if exp["at"] == 0 and a in ("StartPort", "StartDone"):
-                    if raised != bool(exp["raised"]):
+                    if raised != bool(exp["raised"]) and not on_running:
                         self.mismatch.append({"step": n, "action": a, "what": "start-raised", "expected": exp["raised"], "observed": raised})
                     task = None
             got_listening = sorted(inv[q] for q in ports if q in self.net.udp and not self.net.udp[q].closing)
